@@ -24,6 +24,22 @@ CHECKS = {
   text="Seeded search over (history of outermost API calls x generated bodies x fault schedule): host-callback failures of 5 kinds, interrupts at probes and at arbitrary VM ticks, call-depth limits 0..64, interrupts while idle. Each run is one exactly replayable execution of the real goja against a simulated embedding host; oracles: idle-state invariant after every outermost return, equality of every unfaulted call with the fault-free twin history, prefix-of-counterfactual for uncatchable conditions. A clean batch is evidence, not proof.",
   note="Trusts the Go toolchain, the guarded VerifState snapshot and the confinement of generated bodies (no cross-call JS-heap state). Semantics of the continuation after a catchable fault is judged by C08's engine, not here.",
   technique=TECH+": seeded fault schedules over simulated host callbacks; counterfactual (fault-free twin) + idle-state-invariant oracles; tape-level shrinking; replay files"),
+"C08": dict(engine="ctlsim", ref="DESIGN.md 5.2",
+  text="Programs from a control-flow skeleton grammar (nested try/catch/finally, labelled for/while/do-while/for-in/for-of, switch, labelled blocks, array destructuring, spread, yield*, generators, instrumented iterators whose next/return/throw methods are probes) are printed as JavaScript and run by the real goja; every block head is an exit point listing every legal throw / return / break L / continue L, and a seeded DECISION SCHEDULE chooses per dynamic visit which exit fires, what each iterator method does (normal, throw, early done, non-object) and optionally where an interrupt lands. A definitional reference interpreter with explicit completion records (ECMA-262 try/finally override, LoopContinues, ForIn/OfBodyEvaluation + IteratorClose, IteratorBindingInitialization, spread, yield*, generator state machine) consumes the same schedule; event logs (probes, markers with values, iterator method calls, catch bindings), the final completion and the idle-state invariant are compared.",
+  note="Trusts the reference interpreter (sim/ctl) as a transcription of the specification for the skeleton language; it was calibrated on the tree and every mismatch triaged against the specification text (6 genuine goja defects repaired). Statement completion values are not compared. Error objects are compared by constructor name.",
+  technique=TECH+": seeded decision schedules (abrupt exits, iterator-method faults, interrupts) over generated control-flow programs; event-log refinement against an executable reference interpreter"),
+"C09": dict(engine="ctlsim", ref="DESIGN.md 5.2",
+  text="1-3 generator functions and up to 3 async functions from the skeleton grammar (yields/awaits in operand, argument, spread, template and destructuring-default positions, inside try/catch/finally and loops); generator objects live in globals and are driven by next(v)/throw(e)/return(v) histories issued from main, from other generator bodies and from their own body (re-entrancy), by for-of, spread, destructuring and yield* (incl. self-delegation); the decision schedule additionally chooses abrupt exits inside bodies and iterator-method faults. The reference interpreter runs every activation as a coroutine implementing the specification's generator state machine (suspendedStart/suspendedYield/executing/completed, GeneratorResumeAbrupt) and a FIFO job queue for async functions; all driver results {value, done}, thrown errors, logs and the final completion are compared.",
+  note="async function* and for-await are not supported by goja's parser and are excluded. Async functions only await ints and promises of other async functions (no thenables; those are C10's).",
+  technique=TECH+": seeded driver histories and decision schedules over coroutine activations; refinement against an executable reference state machine"),
+"C10": dict(engine="loopsim", ref="DESIGN.md 5.3 (C10)",
+  text="A simulated event loop (discrete-event heap on a simulated clock: timers, Go-side NewPromise resolvers with seeded latency/reordering/double calls, client start tasks) replaces goja_nodejs; each macrotask is one outermost call into the real runtime, after which goja drains its own job queue. Promise programs are data (constructors, resolve/reject any number of times with value/promise/thenable/self, then/catch/finally, all/allSettled/race/any, async functions with nested awaits, thenables whose then is a probe, native handlers that call back into JS) rendered to JavaScript and interpreted by a transcription of the specification's promise and job algorithms. Faults: handler/thenable throws, resolvers called twice / from inside natives / from inside jobs, interrupts in jobs and at VM ticks, call-depth limits inside jobs. Oracles: global handler order = model (FIFO), exactly-once, queue empty at every normal outermost return, rejection-tracker log = HostPromiseRejectionTracker model, State()/Result() of every promise, interrupted drains drop the remaining jobs.",
+  note="Only the intrinsic Promise constructor is used (no subclassing/species/patched then). Error message texts are not compared.",
+  technique=TECH+": simulated event loop and clock with seeded macrotask schedules and injected handler/interrupt faults; history checked against an executable model of the spec's promise job queue"),
+"C14": dict(engine="chainsim", ref="DESIGN.md 5.1 (C14)",
+  text="Call chains of depth 1-8 alternating 12 kinds of script frames (plain, catch-rethrow, finally, swallow, wrap, getter, proxy trap, generator, promise job, eval, class constructor) and 14 native calling conventions (FunctionCall, reflect with/without error, %w-wrapping, ConstructorCall, ExportTo'd funcs, Try+Object.Get, Try+ForOf, ProxyTrapConfig, DynamicObject, host swallow, nested RunProgram), entered through 5 API kinds; the fault schedule picks one of 43 payloads raised by the innermost frame (script throws of every value kind, native panics with Values/Exceptions, Go errors: sentinel, wrapped, joined, custom type; foreign panics; interrupts in natives and at VM ticks; call-depth limits). A transfer model predicts the event log, what every catch site must observe (same value / same GoError object), what each native gets back, and the host's final outcome (Value() identity, errors.Is/As/Unwrap, stack top frame = throw site, foreign panic identity); uncatchables by prefix-of-counterfactual.",
+  note="Stack top frame is asserted exactly only where no rethrow/wrap frame lies between the throw and the host; pointer identity of *Exception is not asserted across script finally frames (see DESIGN.md relaxations).",
+  technique=TECH+": seeded fault schedule over simulated host frames of every calling convention; error-identity transfer model + prefix-of-counterfactual oracle"),
 "C15": dict(engine="faultsim+watchdog", ref="DESIGN.md 5.1, 5.4, 3.4",
   text="Interrupt schedules over generated histories: raised synchronously inside host callbacks, from the per-instruction tick hook, and by real second goroutines released at tape-chosen VM ticks (also while idle, with and without ClearInterrupt, two watchdogs in a row). The binary is built with -race and goroutine hand-off uses raw pipe syscalls that add no happens-before edge, so the race detector judges only goja's own synchronisation. Oracles: *InterruptedError carrying exactly v, event log is a prefix of the fault-free run (no catch/finally/iterator-close ran), at most B=100000 instructions after the raise, idle-state invariant, later calls equal the fault-free twin, no race report.",
   note="Interleaving granularity is the VM instruction; the race detector's bounded history makes a clean batch evidence, not proof. Trusts VerifState and the tick hook.",
@@ -42,6 +58,9 @@ CHECKS = {
   technique=TECH+": seeded host faults (detach/retarget/Go-side write/species results) injected inside callbacks of running typed-array operations over guard-paged Go memory; byte-array reference model with a narrowly relaxed oracle after faults"),
 }
 ENGINES = [
+ dict(name="ctlsim", path="sim/ctl", serves_properties=["C08","C09"], kind_free_text="generated control-flow/generator programs under a seeded decision schedule; definitional reference interpreter (coroutines for generator/async activations)"),
+ dict(name="loopsim", path="sim/engines/loopsim.go", serves_properties=["C10"], kind_free_text="simulated event loop + clock, promise programs as data, spec promise/job-queue model"),
+ dict(name="chainsim", path="sim/engines/chainsim.go", serves_properties=["C14"], kind_free_text="call chains over every native calling convention with injected payloads; error-identity transfer model"),
  dict(name="racesim", path="sim/engines/racesim.go", serves_properties=["C16"], kind_free_text="seeded scheduler of real goroutines (one Runtime each) at VM-instruction granularity with HB-transparent batons, race build"),
  dict(name="bufsim", path="sim/engines/bufsim.go", serves_properties=["C17"], kind_free_text="simulated memory-owning host: guard-paged slabs, detach/write/species faults inside callbacks, byte model"),
  dict(name="faultsim", path="sim/engines/faultsim.go", serves_properties=["C03","C15"], kind_free_text="simulated embedding host (native callbacks, re-entry, watchdog goroutines, depth limits) around one real Runtime; seeded fault schedule; counterfactual/twin, prefix and idle-invariant oracles"),
